@@ -481,7 +481,7 @@ def sparse_group(g):
     names = []
     # which operands hold which key: every key in at least two operands, often NOT in the first two (so that the chunk is
     # still an array when the 3rd, 4th … operand is merged in place)
-    holders = {k: set(r.sample(range(n), r.randint(2, n))) for k in keys}
+    holders = {k: set(r.sample(range(n), 2 if r.random() < 0.6 else r.randint(2, n))) for k in keys}
     for i in range(n):
         slots = []
         for j, k in enumerate(keys):
@@ -501,8 +501,10 @@ def sparse_group(g):
         g.emit("mkrepr %s cow=%d;%s" % (a, r.randrange(2) if r.random() < 0.3 else 0, ";".join(slots)))
         names.append(a)
     for fn in SEQ + PAR:
-        for _ in range(2):
-            r.shuffle(names)
+        r.shuffle(names)
+        # every rotation: each operand is merged first, second and later (the in-place lazy union starts with the 3rd)
+        orders = [names[i:] + names[:i] for i in range(len(names))] if fn == "fastor" else [list(names), names[::-1]]
+        for names in orders:
             y = g.fresh(tag + "y")
             if fn in PAR:
                 g.emit("%s %s %d %s" % (fn, y, r.choice(WORKERS), " ".join(names)))
